@@ -5949,7 +5949,14 @@ class CodegenCtx:
 
     def _has_plain_finish(self):
         def in_actions(actions):
-            return any(type(sub) is FinishAction for action in actions for sub in action.all_subactions())
+            for action in actions:
+                for sub in action.all_subactions():
+                    if type(sub) is FinishAction:
+                        return True
+                    # (the actions that follow a loop run in place of a break nested in a conditional)
+                    if isinstance(sub, BreakAction) and in_actions(x for x in sub.replacement_actions() if x is not sub):
+                        return True
+            return False
         return in_actions(self.start_actions) or any(in_actions(x.actions) for x in self.dfa.all_transitions())
 
     def _generate_equal_check(self, on_value):
